@@ -87,6 +87,34 @@ def effect_order_cases():
     return cases
 
 
+LIBPRE = "require List import [map_list, filter, reduce, unique, grouped]; "
+
+
+def callback_return_cases():
+    """`return` leaves only the innermost function WITH ITS VALUE also when that function is called back by a built-in or a library
+    function (sorted key / cmp, find key, map_list, filter, reduce, grouped, unique, any / all, for_each, object methods, _str_): a callback
+    that leaves through an early `return` (inside if, loops, blocks) is indistinguishable from one written as a single expression"""
+    pairs = [("fn(x) do if x > 1 then return 0 - x; x end", "fn(x) if x > 1 then 0 - x else x"),
+             ("fn(x) do for i in [1, 2, 3] do if i == 2 then return x * i end; 0 end", "fn(x) x * 2"),
+             ("fn(x) do while TRUE do return x + 1 end end", "fn(x) x + 1"),
+             ("fn(x) do do return x finally 1 end end", "fn(x) x")]
+    uses = ["sorted([3, 1, 2, 5, 4], key = F)", "sorted([3, 1, 2], cmp = fn(a, b) compare(F(a), F(b)))", "find([7, 1, 2, 3], F(2), key = F)", "find_last([1, 2, 3, 2], F(2), key = F)",
+            "map_list([1, 2, 3], F)", "filter([1, 2, 3, 4], fn(y) F(y) < 0 or F(y) > 2)", "reduce([1, 2, 3], fn(a, b) F(a) + F(b))", "unique([1, 2, 1, 3], key = F)",
+            "grouped([1, 1, 2, 3, 3], key = F)", "[F(y) for y in [1, 2, 3]]", "(<*m = fn(self, y) (F)(y)*>)->m(2)", "[1, 2, 3] !> map_list(F)",
+            "string(<*v = 3, _str_ = fn(self) do if self->v > 1 then return 'big'; 'small' end*>)"]
+    cases = []
+    for early, plain in pairs:
+        for u in uses:
+            if "_str_" in u:
+                cases.append((u, ('text', "'big'")))
+                continue
+            cases.append((LIBPRE + u.replace("F", "(" + early + ")"), ('same', LIBPRE + u.replace("F", "(" + plain + ")"))))
+    cmp_early = "fn(a, b) do if a < b then return -1; if a > b then return 1; return 0; end"
+    cases.append((f"sorted([3, 1, 2, 1], cmp = {cmp_early})", ('text', "[1, 1, 2, 3]")))
+    cases.append((f"sorted([[2, 'a'], [1, 'b'], [2, 'c']], cmp = {cmp_early}, key = fn(p) do if p[0] > 1 then return 2; 1 end)", ('text', "[[1, 'b'], [2, 'a'], [2, 'c']]")))
+    return cases
+
+
 def exit_cases():
     """return / break / continue in their operand-free forms"""
     return [
@@ -133,6 +161,7 @@ def run(ctx):
     progcheck.run_profiles(ctx, ["control", "mixed"], 3000 if ctx.thorough else 500)
     progcheck.run_templates(ctx, comprehension_cases(ctx.rng, None if ctx.thorough else 500), "comprehension-vs-loop")
     progcheck.run_templates(ctx, effect_order_cases(), "comprehension-effect-order")
+    progcheck.run_templates(ctx, callback_return_cases(), "return-in-callbacks")
     progcheck.run_templates(ctx, exit_cases(), "exit-statements")
     common.replay_known(ctx)
 
